@@ -157,6 +157,8 @@ func main() {
 	run := ev.Start("C11", "model_checking")
 	spec.MaxDepth = len(W.Events)
 	st := xplore.BFS(run, spec)
+	concurrent(run, thorough)
+	W = world(thorough)
 	run.Set("states", st.States)
 	run.Set("transitions", st.Transitions)
 	run.Set("traces_validated_against_impl", st.Checks)
